@@ -343,7 +343,7 @@ def make_loop_handler(invariants=None):
                 if var is None:
                     raise Unsupported('loop target')
                 elem = None
-            elif getattr(it, 'is_zarr', False) and it.ndim == 1 and isinstance(n.target, ast.Name):
+            elif (getattr(it, 'is_zarr', False) or getattr(it, 'is_iarr', False)) and it.ndim == 1 and isinstance(n.target, ast.Name):
                 lo, hi = z3.IntVal(0), zint(it.shape[0]); var = '#k'; elem = it
             else:
                 raise Unsupported(f'loop iterable at line {n.lineno}')
